@@ -188,6 +188,17 @@ def run(check, tier, seed):
         broken.append({"pins": "harness/%s.py tables() cannot read the pinned constants from the code: %s: %s"
                                % (pid.lower(), type(e).__name__, str(e)[:500])})
         log.append("tables() failed: %s" % e)
+    try:
+        if tables.generate_translations(check):
+            log.append("Generated/Trans%s.lean changed" % pid)
+    except Exception as e:
+        # The translator (harness/common/py2lean.py) could not translate the current source text of a function the
+        # property's Translated.lean ties to the model: the tie "translated source = model" no longer checks.  A broken
+        # obligation (reported, with a failing-input search), not an infrastructure error; the previous translation
+        # stays in place for the build.
+        broken.append({"translation": "harness/%s.py translations() cannot translate the current source: %s: %s"
+                                      % (pid.lower(), type(e).__name__, str(e)[:500])})
+        log.append("translations() failed: %s" % e)
 
     # 2. build
     build_ok, build_log, build_s = leanrun.lake_build(targets)
